@@ -5,6 +5,7 @@ import (
 	"fmt"
 	"os"
 	"path/filepath"
+	"runtime"
 	"runtime/metrics"
 	"sync"
 	"sync/atomic"
@@ -20,7 +21,7 @@ import (
 // that one violation and a replay file (case + run seed; the tape is regenerated from the seed) and ends the process.
 //
 // Both limits are far outside what the unchanged tree needs (see the max:heap-mb / max:rss-mb / max:run-wall-s
-// counters in the evidence). The memory limit is on heap objects, not on the resident set: crash-image arms with
+// counters in the evidence). The memory limit is on heap objects that survive a full collection, not on the resident set: crash-image arms with
 // multi-megabyte values legitimately reach a resident set of 3 GB (freed but not yet returned memory).
 // ---------------------------------------------------------------------------
 
@@ -103,6 +104,12 @@ func (c *Ctx) startWatchdog() {
 			h := heapMB()
 			if int64(h) > heapPeakMB.Load() {
 				heapPeakMB.Store(int64(h))
+			}
+			if h-h0 > heapLimit {
+				// garbage that the collector has not got round to yet (a loaded machine, many processors) is not a
+				// runaway: only what survives a full collection counts
+				runtime.GC()
+				h = heapMB()
 			}
 			if h-h0 > heapLimit {
 				c.watchdogFire("runaway-memory", fmt.Sprintf("the heap grew from %d to %d MB of objects during one simulated run (limit: %d MB of growth): a call into the code under test allocates without bound", h0, h, heapLimit), seed, cs, rp)
